@@ -86,6 +86,8 @@ pub fn run_case(lines: &[Vec<String>], o: &mut Out) {
                     Some(g) => {
                         o.obs(1, &[vec![0]], &[]);
                         print_graph(&g, if d { 0 } else { 1 }, o);
+                        // the KIND of the generated graph (oracle-only observation)
+                        o.obs(5004, &[vec![g.specs.directed as i64, g.specs.multi_edges as i64]], &[]);
                     }
                 }
             }
@@ -103,6 +105,7 @@ pub fn run_case(lines: &[Vec<String>], o: &mut Out) {
                 o.obs(40, &[gaps], &[]);
                 if let Some(Ok(g)) = r {
                     print_graph(&g, if d { 0 } else { 2 }, o);
+                    o.obs(5004, &[vec![g.specs.directed as i64, g.specs.multi_edges as i64]], &[]);
                 }
             }
             "gnpnone" => {
@@ -113,6 +116,14 @@ pub fn run_case(lines: &[Vec<String>], o: &mut Out) {
                 o.obs(1, &[vec![res_code(&r)]], &[]);
                 if let Some(Ok(g)) = r {
                     print_graph(&g, if d { 0 } else { 2 }, o);
+                    o.obs(5004, &[vec![g.specs.directed as i64, g.specs.multi_edges as i64]], &[]);
+                    // a second UNSEEDED call is a fresh draw (oracle-only: equal edge sets are astronomically unlikely
+                    // for the sizes the oracle looks at)
+                    if let Some(Ok(g2)) = guard(|| generators::random::fast_gnp_random_graph(n, p, d, None)) {
+                        let a = rows_of(&g, if d { 0 } else { 2 }).1;
+                        let b = rows_of(&g2, if d { 0 } else { 2 }).1;
+                        o.obs(5005, &[vec![(a == b) as i64, a.len() as i64, b.len() as i64]], &[]);
+                    }
                 }
             }
             "karate" => {
